@@ -71,6 +71,7 @@ def errToModel : Fail → Option Meta.OpenErr
   | .err .invalidFormatVersion => some .badMagic
   | .err .invalidCompressionType => some .badCodec
   | .err .cursor => none
+  | .err .decompress => none
   | .panic _ => none
 
 def resToModel : M Gen.Metadata → Option (Except Meta.OpenErr Meta.Meta)
